@@ -101,6 +101,43 @@ let handle (toks : string list) : (string * string * string) option =
     end
   | _ -> None
 
+(* C12: one guest call of a registered callback whose parameter / result is of a given kind
+   (data pointers and integers of every width): the interceptor's conversion of that kind *)
+let shl a n = Z.mul (z_of_int a) (Z.pow (z_of_int 2) (z_of_int n))
+let handle_cbk (toks : string list) : (string * string * string) option =
+  match toks with
+  | [("cbk32" | "cbk16" | "cbk64" | "cbkw" | "cbkn") as op; dir; kind; v] ->
+    let a = (match op with "cbkw" -> abi_wide | "cbkn" -> abi_host | _ -> abi_lp32) in
+    let v = z_of_string v in
+    let is_ptr = (kind = "ptr" || kind = "cptr" || kind = "vptr") in
+    let (m, sp) =
+      if is_ptr then begin
+        (* the region: any base; size as the configuration's; the noop back end is the identity on addresses
+           (its offsets are reported relative to an application buffer) *)
+        let base = shl 1 44 in
+        let size = (match op with "cbk16" -> shl 1 16 | _ -> shl 1 32) in
+        let s = { rbase = base; rsize = size } in
+        if dir = "p" then
+          let seen = if op = "cbkn" then (if v = Z0 then Z0 else Z.add base v) else unsandbox s v in
+          let show x = if x = Z0 then "R:null runs=1" else "R:off=" ^ string_of_z (Z.sub x base) ^ " runs=1" in
+          (show seen, (if v = Z0 then "R:null runs=1" else "R:off=" ^ string_of_z v ^ " runs=1"))
+        else
+          let addr = if v = Z0 then Z0 else Z.add base v in
+          let rep = if op = "cbkn" then v else sandbox_ptr s addr in
+          ("GG:" ^ string_of_z rep ^ " runs=1", "GG:" ^ string_of_z v ^ " runs=1")
+      end else begin
+        let k = kind_of_string kind in
+        let gk = (match sbx_equiv a k with Some g -> g | None -> failwith "no guest kind") in
+        if dir = "p" then
+          let m = (match to_app a k v with Some (Ok x) -> "R:" ^ string_of_z x ^ " runs=1" | Some _ -> "ABORT runs=0" | None -> failwith "no abi map") in
+          (m, (if in_range k v then "R:" ^ string_of_z v ^ " runs=1" else "ABORT runs=0"))
+        else
+          let m = (match to_sbx a k v with Some (Ok x) -> "GG:" ^ string_of_z x ^ " runs=1" | Some _ -> "ABORT runs=1" | None -> failwith "no abi map") in
+          (m, (if in_range gk v then "GG:" ^ string_of_z v ^ " runs=1" else "ABORT runs=1"))
+      end in
+    Some (m, sp, op ^ ":" ^ dir ^ ":" ^ (if is_ptr then "ptr" else "int") ^ (if String.length m >= 5 && String.sub m 0 5 = "ABORT" then ":abort" else ":ok"))
+  | _ -> None
+
 (* scope_exit histories *)
 let handle_sx (toks : string list) : (string * string * string) option =
   match toks with
